@@ -42,7 +42,7 @@ def main():
             if rc != 0:
                 rows.append((prop, sha, "could not reverse-apply cleanly", "", f["what"][:90]))
                 continue
-            rcc, oc = sh(f"{PY} -u {VERIF}/run.py {prop} --tier quick --no-evidence", env={"VERIF_REPO": wt})
+            rcc, oc = sh(f"{PY} -u {VERIF}/run.py {prop} --tier quick --no-evidence --jobs 6", env={"VERIF_REPO": wt})
             first = next((l.strip() for l in oc.splitlines() if "violation class=" in l), "")
             rows.append((prop, sha, f"exit {rcc}", first[:160].replace("|", "/"), f["what"][:90].replace("|", "/")))
             print(prop, sha, "exit", rcc, first[:140], flush=True)
